@@ -17,6 +17,11 @@ namespace c04
         K_SCATTER, // reg_in lanes -> base[idx[i]]
         K_CPLX2_LOAD, // split complex load: lanes reals at p, lanes imaginaries at p2 (p2 may be null: imaginary part is 0) -> real ++ imag in reg_out
         K_CPLX2_STORE, // split complex store: real lanes -> p, imaginary lanes -> p2
+        // sequences inside one inlined scope: the caller touches the same array through ordinary T lvalues between two library accesses
+        K_SEQ_LOAD, // load (-> aux), t[i] = reg_in lane i for every i (typed stores), load again (-> reg_out)
+        K_SEQ_STORE, // store reg_in, then read every element back through a typed lvalue (-> aux)
+        K_SEQ_GATHER, // gather (-> aux), t[idx[i]] = reg_in lane i (typed stores), gather again (-> reg_out)
+        K_SEQ_SCATTER, // scatter reg_in, then read t[idx[i]] back through typed lvalues (-> aux)
         K_CCVT_LOAD, // converting complex load: lanes complex<U> elements at p -> batch<complex<T>>: real ++ imag register bytes in reg_out
         K_CCVT_STORE, // converting complex store: real ++ imag of batch<complex<T>> from reg_in -> lanes complex<U> elements at p
         K_CVT_LOAD, // converting load: lanes elements of type U (mem_elem bytes each) at p -> batch<T>: raw register bytes in reg_out
